@@ -224,6 +224,22 @@ impl<'c, 'd> Gen<'c, 'd> {
     }
 
     fn text_line(&mut self, tag: Option<&str>) -> String {
+        self.text_line_ex(tag, false)
+    }
+
+    /// `inert`: the line will be an argument of a write/empty/temp directive, where directive
+    /// look-alikes (also ones naming real files) are harmless by the documented semantics
+    fn text_line_ex(&mut self, tag: Option<&str>, inert: bool) -> String {
+        if inert && self.c.chance(1, 6) {
+            let target = if !self.plain.is_empty() && self.c.chance(2, 3) {
+                self.plain[self.c.below(self.plain.len())].clone()
+            } else {
+                "x.tmp".to_string()
+            };
+            let name = *self.c.pick(&["temp", "include", "run cat", "after", "tag", "write"]);
+            let pre = *self.c.pick(&["", "-", "// "]);
+            return format!("{pre}TXTPP#{name} {target}");
+        }
         let n = 1 + self.c.below(3);
         let mut s = String::new();
         let tag_pos = self.c.below(n + 1);
@@ -250,7 +266,7 @@ impl<'c, 'd> Gen<'c, 'd> {
                 s.push_str(t);
             }
         }
-        if looks_like_directive(&s) && !self.c.chance(1, 8) {
+        if !inert && looks_like_directive(&s) && !self.c.chance(1, 8) {
             s = s.replacen("TXTPP#", "TXTPP#_", 1);
             if looks_like_directive(&s) {
                 s = s.replace("TXTPP#", "TXTPP=");
@@ -630,7 +646,7 @@ fn gen_source(g: &mut Gen, plans: &mut Vec<SrcPlan>, me: usize) -> String {
                     } else {
                         None
                     };
-                    let mut t = g.text_line(tagname.as_deref());
+                    let mut t = g.text_line_ex(tagname.as_deref(), true);
                     t = t.trim_end().to_string();
                     args.push(t);
                 }
@@ -668,7 +684,7 @@ fn gen_source(g: &mut Gen, plans: &mut Vec<SrcPlan>, me: usize) -> String {
                 args.push(arg);
                 let n = g.c.below(4);
                 for _ in 0..n {
-                    let t = g.text_line(None).trim_end().to_string();
+                    let t = g.text_line_ex(None, true).trim_end().to_string();
                     args.push(t);
                 }
                 if n > 0 && g.c.chance(1, 2) {
@@ -706,7 +722,7 @@ fn gen_source(g: &mut Gen, plans: &mut Vec<SrcPlan>, me: usize) -> String {
                 name = "";
                 let n = g.c.below(3);
                 for _ in 0..n {
-                    let t = g.text_line(None).trim_end().to_string();
+                    let t = g.text_line_ex(None, true).trim_end().to_string();
                     args.push(t);
                 }
                 if let Some(first) = args.first_mut() {
